@@ -158,8 +158,14 @@ func c13Check(c c13Case) *Violation {
 			image = append(image, 0)
 		case 1:
 			image = append(image, bytes.Repeat([]byte{0xAB}, 32)...)
-		default:
+		case 2:
 			image = append(image, image[hdr:]...)
+		case 3:
+			image = append(image, make([]byte, 4096)...)
+		case 4:
+			image = append(image, bytes.Repeat([]byte{0x5A}, 8000)...)
+		default:
+			image = append(image, 0xFF)
 		}
 	case "rename":
 		// the finished entry of (root,data) stored under the name of another pair and opened as that pair
@@ -277,6 +283,17 @@ func TestC13(t *testing.T) {
 		levels = []int{-1, 1, 9}
 		seeds = []int{1, 2}
 	}
+	// bodies whose compressed length is an exact multiple of a reader buffer size (4096 = bufio default, 32 KiB =
+	// deflate window, 64 KiB): readers that stop at a buffer boundary behave differently exactly there
+	for _, target := range []int{4096, 8192, 32768, 65536} {
+		for n := target - 64; n <= target; n++ {
+			ent, v := c13Make(c13Case{Body: "random", Len: n, Seed: 1, Chunks: 1, Level: -1})
+			if v == nil && len(ent.finished)-60 == target {
+				bodies = append(bodies, bodyCfg{"random", n, false})
+				break
+			}
+		}
+	}
 	e := enumPart(t, c13Prop, st, "fault-enumeration")
 	exhaustiveAll := true
 	for _, b := range bodies {
@@ -301,7 +318,7 @@ func TestC13(t *testing.T) {
 					if !try(mk("none", 0, 0)) || !try(mk("rename", 0, 0)) || !try(mk("wrong-root", 0, 0)) || !try(mk("wrong-data", 0, 0)) {
 						return
 					}
-					for k := 0; k < 3; k++ {
+					for k := 0; k < 6; k++ {
 						if !try(mk("tail", k, 0)) {
 							return
 						}
